@@ -103,6 +103,8 @@ func directivesSeq2(s string) iter.Seq2[string, string] {
 			if len(key) == 0 {
 				continue
 			}
+			// Directive names are case-insensitive (RFC 9111 §5.2).
+			key = strings.ToLower(key)
 			if !yield(key, value) {
 				return
 			}
@@ -121,11 +123,19 @@ func hasToken(d map[string]string, token string) bool {
 	return ok
 }
 
+// The argument of a directive may use the token or the quoted-string syntax
+// (RFC 9111 §5.2).
 func getDurationDirective(d map[string]string, token string) (dur time.Duration, valid bool) {
 	if v, ok := d[token]; ok {
-		return RawDeltaSeconds(v).Value()
+		return RawDeltaSeconds(ParseQuotedString(v)).Value()
 	}
 	return
+}
+
+// cacheControlValue combines all Cache-Control field lines into one list
+// (RFC 9110 §5.3).
+func cacheControlValue(header http.Header) string {
+	return strings.Join(header.Values("Cache-Control"), ",")
 }
 
 // CCRequestDirectives is a map of request directives from the Cache-Control
@@ -137,7 +147,7 @@ func getDurationDirective(d map[string]string, token string) (dur time.Duration,
 type CCRequestDirectives map[string]string
 
 func ParseCCRequestDirectives(header http.Header) CCRequestDirectives {
-	value := header.Get("Cache-Control")
+	value := cacheControlValue(header)
 	if value == "" {
 		return nil
 	}
@@ -152,7 +162,7 @@ func (d CCRequestDirectives) MaxAge() (dur time.Duration, valid bool) {
 // MaxStale parses the "max-stale" request directive as defined in RFC 9111, §5.2.1.2.
 func (d CCRequestDirectives) MaxStale() (dur RawDeltaSeconds, valid bool) {
 	if v, ok := d["max-stale"]; ok {
-		return RawDeltaSeconds(v), true
+		return RawDeltaSeconds(ParseQuotedString(v)), true
 	}
 	return
 }
@@ -196,7 +206,7 @@ func (d CCRequestDirectives) StaleIfError() (dur time.Duration, valid bool) {
 type CCResponseDirectives map[string]string
 
 func ParseCCResponseDirectives(header http.Header) CCResponseDirectives {
-	value := header.Get("Cache-Control")
+	value := cacheControlValue(header)
 	if value == "" {
 		return nil
 	}
